@@ -65,6 +65,42 @@ def gen_graph(rnd):
     return n, shape, imps
 
 
+USER_TEMPLATES = {'literal/string.j2': "{{- emit_depends('<string>') -}}\n\"{{ value[1:-1] }}\""}
+
+
+def user_template_history(ctx: Ctx, cli, root) -> None:
+    """four independent modules, the first and the last one in file-name order hold string literals (a user template registers
+    <string> for them through emit_depends), the two in between do not; after the first run each of the two is edited in turn:
+    the non-forced run must leave what a forced run writes"""
+    proj_dir = os.path.join(root, 'c06_tpl')
+    p = cli.Project(proj_dir, output_dirs=['./out'], templates=USER_TEMPLATES)
+    imps = {0: [], 1: [], 2: [], 3: []}
+    variant = {0: 1, 1: 0, 2: 1, 3: 0}       # file-name order: m1 (str), m10 (int), m1x (int), m2 (str)
+    for i in range(4):
+        p.edit(mod(i), module_src(i, [], variant[i], 0))
+    hist = [('run',)]
+    r = p.run(force=False)
+    for m in (1, 3):
+        p.edit(mod(m), module_src(m, [], 2, 0))
+        hist.append(('edit', m, 2, 0, 'now'))
+        r1 = p.run(force=False)
+        a = {f: c for f, (c, _) in p.outputs().items()}
+        r2 = p.run(force=True)
+        b = {f: c for f, (c, _) in p.outputs().items()}
+        ctx.evaluations += 1
+        ctx.count('user-template')
+        if 'ok' not in (r[0], r1[0], r2[0]) or r1[0] != 'ok' or r2[0] != 'ok':
+            ctx.violation('run-fails:user-template', 'a run failed on a project with a user template', dict(history=hist, graph=imps, templates=USER_TEMPLATES, variants=variant, impl_result=(r, r1, r2)))
+            break
+        if a != b:
+            stale = sorted(f for f in b if a.get(f) != b[f])
+            ctx.violation('stale-other', 'a non-forced run leaves an output that a forced run would write differently (user template with emit_depends)',
+                          dict(history=hist + [('run',)], graph=imps, templates=USER_TEMPLATES, variants=variant, output_dirs=['./out'], pkg='proj',
+                               oracle_result={f: b[f][:300] for f in stale}, impl_result={f: a.get(f, '')[:300] for f in stale}))
+            break
+    shutil.rmtree(proj_dir, ignore_errors=True)
+
+
 def run(ctx: Ctx) -> None:
     import cli
     shim()
@@ -83,7 +119,11 @@ def run(ctx: Ctx) -> None:
         pkg = 'proj'
         if hidx % 4 == 3:
             pkg, outdirs = 'proj_' + 'x' * 64, ['./out']       # a module path of more than 63 characters: the header line exceeds 256 characters
-        p = cli.Project(proj_dir, pkg=pkg, output_dirs=outdirs)
+        templates = None
+        if hidx % 4 == 2:
+            # a user template that registers a dependency through the emit_depends view helper (every string literal needs <string>)
+            templates = {'literal/string.j2': "{{- emit_depends('<string>') -}}\n\"{{ value[1:-1] }}\""}
+        p = cli.Project(proj_dir, pkg=pkg, output_dirs=outdirs, templates=templates)
         variant = {i: 0 for i in range(n)}
         comment = {i: 0 for i in range(n)}
         for i in range(n):
@@ -146,7 +186,7 @@ def run(ctx: Ctx) -> None:
             own_header_current = all(MetaHeader.try_from_content(a[f]) == MetaHeader.try_from_content(b[f]) for f in stale if f in a)
             sig = 'stale-dependent' if own_header_current and all(imps[m] for m in ms) else 'stale-other'
             ctx.violation(sig, 'a non-forced run leaves an output that a forced run would write differently (%s)' % sig,
-                          dict(history=hist, graph=imps, output_dirs=outdirs, pkg=pkg, oracle_result={f: b[f][-200:] for f in stale}, impl_result={f: a.get(f, '')[-200:] for f in stale}))
+                          dict(history=hist, graph=imps, output_dirs=outdirs, pkg=pkg, templates=templates, oracle_result={f: b[f][-200:] for f in stale}, impl_result={f: a.get(f, '')[-200:] for f in stale}))
         # ---- the same after an upgrade of the application: headers written by an older version are stale ----
         if hidx % 2 == 0 and r[0] == 'ok' and r2[0] == 'ok':
             from rogw.tranp.data.version import Versions
@@ -176,6 +216,7 @@ def run(ctx: Ctx) -> None:
         tcases.append(coq_pair(str(n), coq_list(ops_model), coq_list(coq_list(map(str, w)) for w in written_impl)))
         traw.append(dict(graph=imps, history=hist))
         shutil.rmtree(proj_dir, ignore_errors=True)
+    user_template_history(ctx, cli, root)
     prelude = ('Definition st0 : state nat := {| sources := fun _ => 0; outs := fun _ => None |}.\n'
                'Definition targets (n : nat) (force : bool) (st : state nat) : list nat := filter (fun m => force || can_transpile nat (fun x => x) st m) (seq 0 n).\n'
                'Fixpoint written (n : nat) (st : state nat) (h : list (op nat)) : list (list nat) := match h with [] => [] | o :: r => '
@@ -241,11 +282,11 @@ def replay(ctx: Ctx, data: dict) -> int:
     n = len(imps)
     proj_dir = os.path.join(scratch_cwd(), 'c06_replay')
     pkg = data.get('pkg') or 'proj'
-    p = cli.Project(proj_dir, pkg=pkg, output_dirs=data.get('output_dirs') or ['./out'])
-    variant = {i: 0 for i in range(n)}
+    p = cli.Project(proj_dir, pkg=pkg, output_dirs=data.get('output_dirs') or ['./out'], templates=data.get('templates'))
+    variant = {i: int((data.get('variants') or {}).get(str(i), 0)) for i in range(n)}
     comment = {i: 0 for i in range(n)}
     for i in range(n):
-        p.edit(mod(i), module_src(i, imps[i], 0, 0, pkg))
+        p.edit(mod(i), module_src(i, imps[i], variant[i], 0, pkg))
     for op in data['history']:
         if op[0] == 'edit':
             variant[op[1]], comment[op[1]] = op[2], op[3]
